@@ -401,7 +401,7 @@ def exactness(ctx, prog):
         ("return False", f"not {pp} in self.peers and not len(self.peers) < self.capacity", "a full bucket reports failure (which is what triggers split / probe)"),
     ]
     R.effect_table(ctx, "C11-D2/EXACT", ka, vocab, rows, "bucket insert: ")
-    aps = [x for x in ka.stmts(ast.Expr) if norm_text(x) == f"self.peers.append({pp})"]
+    aps = [x for x in R.ordered_stmts(ka) if isinstance(x, ast.Expr) and norm_text(x) == f"self.peers.append({pp})"]
     ok = len(aps) == 3 and norm_text(R.prev_stmt(aps[0]) or ast.Pass()) == f"self.peers.remove({pp})" and norm_text(R.prev_stmt(aps[1]) or ast.Pass()) == "self.peers.remove(local_peer)"
     ctx.ob("C11-D2/EXACT", ok, ka.site(), "bucket insert: each refresh appends right after its removal (a removed contact is never left out)", func=q, key=f"C11-D2/EXACT|{q}|remove-append")
     rt = [r for r in ka.stmts(ast.Return)]
